@@ -425,6 +425,18 @@ def check_wrappers(ctx):
             ctx.violate("distance_pairwise accepted an `out` of the wrong shape", {"op": "distance_out_shape"}, {"kind": "distance_out"})
         except Exception:
             pass
+        # results belong to the caller
+        y_, p__, r_ = (float(v) for v in rng.uniform(-3, 3, size=3))
+        fixtures.check_fresh(ctx, "rotation_matrix_ypr", lambda: g.rotation_matrix_ypr(y_, p__, r_), {"op": "fresh", "fn": "rotation_matrix_ypr", "ypr": [y_, p__, r_]})
+        for nm_ in ("rotation_matrix_x", "rotation_matrix_y", "rotation_matrix_z"):
+            fixtures.check_fresh(ctx, nm_, lambda nm_=nm_: getattr(g, nm_)(y_), {"op": "fresh", "fn": nm_, "angle": y_})
+        fixtures.check_fresh(ctx, "distance_pairwise", lambda: g.distance_pairwise(p1, p2))
+        fixtures.check_fresh(ctx, "to_gcs", lambda: g.to_gcs(c.copy(), B, o))
+        fixtures.check_fresh(ctx, "from_gcs", lambda: g.from_gcs(c.copy(), B, o))
+        fixtures.check_fresh(ctx, "CoordinateSystem.convert_from_gcs", lambda: cs_.convert_from_gcs(pg).coords)
+        fixtures.check_fresh(ctx, "CoordinateSystem.basis_matrix", lambda: cs_.basis_matrix)
+        fixtures.check_fresh(ctx, "points_1d_wall_z", lambda: g.points_1d_wall_z(-1.0, 1.0, 0.5, 4).points.coords)
+        fixtures.check_fresh(ctx, "default_orientations", lambda: g.default_orientations(pg).coords)
         # grid accessors
         d = float(rng.uniform(0.1, 1.0))
         grid = g.Grid(0.0, float(rng.uniform(1, 3)), 0.0, 0.0, -1.0, float(rng.uniform(0.5, 2)), d)
@@ -437,6 +449,8 @@ def check_wrappers(ctx):
             ctx.violate("Grid.as_points / to_oriented_points do not enumerate the grid as to_1d_points does", {"op": "grid_accessors"}, {"kind": "grid_order"})
         if not (np.array_equal(op_.orientations.coords, np.broadcast_to(np.eye(3), (grid.numpoints, 3, 3)))):
             ctx.violate("Grid.to_oriented_points does not carry the global axes", {"op": "grid_accessors"}, {"kind": "grid_order"})
+        # (Grid.to_1d_points is a *view* of the grid's own coordinates by design: an accessor of object state, not a function
+        #  result; it is not subjected to the fresh-result check — doing so was a false alarm of the first version)
         for nm, vect in (("dx", grid.xvect), ("dy", grid.yvect), ("dz", grid.zvect)):
             want = None if len(vect) < 2 else vect[1] - vect[0]
             if getattr(grid, nm) != want:
